@@ -47,8 +47,7 @@ pub(crate) fn decompose_in_variable_limbsizes<InF: CircuitField, OutF: CircuitFi
     for limb_size in limb_sizes {
         // compute the mask vector i.e. 111..1 (limb_size ones)
         // NOTE: when the limb_size is 0 he mask will always be 0
-        let mask_bits: u64 = (1 << limb_size) - 1;
-        let mask = BigInt::from(mask_bits);
+        let mask = (BigInt::from(1) << *limb_size) - 1;
 
         // right shift the number and perform an and operation to take the limb
         let limb_int = (x.clone() >> shift) & mask;
